@@ -166,6 +166,7 @@ pub fn build_world(c: &mut Cur) -> World {
                             replies.push(Reply::Conform(edits))
                         }
                         2 => replies.push(Reply::Raw(c.bytes())),
+                        4 => replies.push(Reply::Wait(c.int() as u32)),
                         _ => replies.push(Reply::RecvErr(c.int() as u8)),
                     }
                 }
